@@ -716,6 +716,23 @@ def rule_lambda(ctx, rule):
     return v.decided
 
 
+def chain_items(v, limit=20):
+    """the elements of a list value built as the crate's real cons chain: Value::Pair(Box(GenericPair::Some(car, cdr))) ... Empty"""
+    items = []
+    cur = v
+    for _ in range(limit):
+        if not (isinstance(cur, Enum) and len(cur.fields) == 1 and isinstance(cur.fields[0], Enum)):
+            return None
+        cell = cur.fields[0]
+        if len(cell.fields) == 0:
+            return items
+        if len(cell.fields) != 2:
+            return None
+        items.append(cell.fields[0])
+        cur = cell.fields[1]
+    return None
+
+
 def _expected_defines(kind, k, args):
     if kind == "fixed2":
         return [("a", args[0]), ("b", args[1])]
@@ -761,6 +778,8 @@ def rule_application(ctx, rule, aspects):
                 for (n, want), g in zip(exp, got):
                     if isinstance(want, list):
                         items = getattr(g[2], "items", None) if isinstance(g[2], Tok) else None
+                        if items is None:
+                            items = chain_items(g[2])
                         if items is None:
                             lst = find_enum(g[2], "Pair")
                             items = getattr(lst[0].fields[0], "items", None) if lst and lst[0].fields and isinstance(lst[0].fields[0], Tok) else None
